@@ -361,3 +361,155 @@ class KernelTranslator:
                 binders.append(f"(v_{p} : Z)")
         body = self.block(fn.body)
         return f"Definition {coqname} {{T : Type}} (N : Num T) {' '.join(binders)} :=\n  {body}."
+
+
+# ---------------------------------------------------------------------------
+# Summand of an accumulation loop (the delay-and-sum kernels of arim.im.das)
+# ---------------------------------------------------------------------------
+class SummandTranslator(KernelTranslator):
+    """Translates the body of the loop nest
+
+        for point in numba.prange(numpoints):
+            res_tmp = 0.0
+            for scan in range(numtimetraces):
+                <assignments>
+                if <out of window>: res_tmp += e1
+                else: <assignments>; res_tmp += e2
+            result[point] = res_tmp / numtimetraces
+
+    into the summand  (fun r s => let ... in if ... then e1 else let ... in e2)  over the records of
+    Model/Das.v (`r : prow T D` = the rows of the per-point tables read by iteration `point`,
+    `s : scan D` = timetrace `scan` with its transmitter and receiver).  The skeleton above is checked
+    syntactically (it is what `accumulate` of the model states: a left fold from 0 in timetrace order,
+    divided by the number of timetraces; `prange` = map over the points).
+
+    Three types: T (times, positions, fractions), Z (sample indices), D (sample values and amplitudes:
+    real or complex, the `Data` record).  Reading of the subscripts (trusted, fixed here):
+        lookup_times_tx[point, tx[scan]]   getT N (r_lt_tx r) (s_tx s)         (same for rx)
+        amplitudes_tx[point, tx[scan]]     getD V (r_a_tx r) (s_tx s)          (same for rx)
+        weighted_timetraces[scan, i]       sample V (s_x s) i
+        weighted_timetraces[scan]          s_x s        (a row; its length is numsamples)
+    and of the operators: D*D dmul, T*D and D*T dscale, D+D dadd, D-D dsub; round() nround, math.floor
+    nfloor; `a < b or c >= d` the boolean `||` of the comparisons (integers: <? >=?; floats: nltb, nleb);
+    lanczos_interpolation(t, row, a) the model's function of the same name with n = numsamples."""
+
+    FIXED = {
+        "lookup_times_tx[point, tx[scan]]": ("(getT N (r_lt_tx r) (s_tx s))", "T"),
+        "lookup_times_rx[point, rx[scan]]": ("(getT N (r_lt_rx r) (s_rx s))", "T"),
+        "amplitudes_tx[point, tx[scan]]": ("(getD V (r_a_tx r) (s_tx s))", "D"),
+        "amplitudes_rx[point, rx[scan]]": ("(getD V (r_a_rx r) (s_rx s))", "D"),
+        "weighted_timetraces[scan]": ("(s_x s)", "Row"),
+    }
+
+    def asT(self, te):
+        t, ty = te
+        if ty == "D":
+            raise Untranslatable("a sample value used as a real number")
+        if ty == "Z":
+            return {"(0)%Z": "(n0 N)", "(1)%Z": "(n1 N)"}.get(t, f"(nofZ N {t})")
+        return t
+
+    def lit(self, v):
+        if isinstance(v, float) and v == 0.0:
+            return "(n0 N)", "T"
+        if isinstance(v, float) and v == 1.0:
+            return "(n1 N)", "T"
+        return super().lit(v)
+
+    def expr(self, e):
+        if isinstance(e, ast.Subscript):
+            key = ast.unparse(e)
+            if key in self.FIXED:
+                return self.FIXED[key]
+            if (isinstance(e.value, ast.Name) and e.value.id == "weighted_timetraces" and isinstance(e.slice, ast.Tuple)
+                    and len(e.slice.elts) == 2 and isinstance(e.slice.elts[0], ast.Name) and e.slice.elts[0].id == "scan"):
+                i = self.expr(e.slice.elts[1])
+                if i[1] != "Z":
+                    raise Untranslatable("sample index is not an integer")
+                return f"(sample V (s_x s) {i[0]})", "D"
+            raise Untranslatable(f"subscript {key}")
+        if isinstance(e, ast.Call):
+            fn = e.func
+            name = fn.id if isinstance(fn, ast.Name) else (fn.attr if isinstance(fn, ast.Attribute) else None)
+            if e.keywords:
+                raise Untranslatable("keyword arguments")
+            if name == "round" and len(e.args) == 1:
+                return f"(nround N {self.asT(self.expr(e.args[0]))})", "Z"
+            if name == "floor" and len(e.args) == 1:
+                return f"(nfloor N {self.asT(self.expr(e.args[0]))})", "Z"
+            if name == "lanczos_interpolation" and len(e.args) == 3:
+                t, x, a = (self.expr(a_) for a_ in e.args)
+                if x[1] != "Row" or a[1] != "Z":
+                    raise Untranslatable("arguments of lanczos_interpolation")
+                return f"(lanczos_interpolation N V v_numsamples {self.asT(t)} {x[0]} {a[0]})", "D"
+            raise Untranslatable(f"call of {name}")
+        if isinstance(e, ast.BinOp):
+            a, b = self.expr(e.left), self.expr(e.right)
+            if "D" in (a[1], b[1]):
+                if isinstance(e.op, ast.Mult):
+                    if a[1] == "D" and b[1] == "D":
+                        return f"(dmul V {a[0]} {b[0]})", "D"
+                    d, t = (a, b) if a[1] == "D" else (b, a)
+                    return f"(dscale V {self.asT(t)} {d[0]})", "D"
+                if a[1] == "D" and b[1] == "D" and isinstance(e.op, (ast.Add, ast.Sub)):
+                    return f"({'dadd' if isinstance(e.op, ast.Add) else 'dsub'} V {a[0]} {b[0]})", "D"
+                raise Untranslatable("operator on sample values")
+        return super().expr(e)
+
+    def cond(self, t):
+        if isinstance(t, ast.BoolOp) and isinstance(t.op, ast.Or):
+            return "(" + " || ".join(self.cond(v) for v in t.values) + ")"
+        if isinstance(t, ast.Compare) and len(t.ops) == 1 and isinstance(t.ops[0], (ast.Lt, ast.GtE)):
+            a, b = self.expr(t.left), self.expr(t.comparators[0])
+            if a[1] == "Z" and b[1] == "Z":
+                return f"({a[0]} {'<?' if isinstance(t.ops[0], ast.Lt) else '>=?'} {b[0]})%Z"
+            A, B = self.asT(a), self.asT(b)
+            return f"(nltb N {A} {B})" if isinstance(t.ops[0], ast.Lt) else f"(nleb N {B} {A})"
+        raise Untranslatable("condition")
+
+    def body(self, stmts):
+        """statements of the inner loop (or of a branch) -> the value added to res_tmp"""
+        if not stmts:
+            raise Untranslatable("a path through the loop body adds nothing to res_tmp")
+        s, rest = stmts[0], stmts[1:]
+        if isinstance(s, ast.Assign) and len(s.targets) == 1 and isinstance(s.targets[0], ast.Name):
+            t, ty = self.expr(s.value)
+            self.types[s.targets[0].id] = ty
+            return f"let v_{s.targets[0].id} := {t} in\n  {self.body(rest)}"
+        if isinstance(s, ast.AugAssign) and isinstance(s.target, ast.Name) and s.target.id == "res_tmp" \
+                and isinstance(s.op, ast.Add) and not rest:
+            t, ty = self.expr(s.value)
+            if ty != "D":
+                raise Untranslatable("the summand is not a sample value")
+            return t
+        if isinstance(s, ast.If) and not rest and s.orelse:
+            return f"if {self.cond(s.test)} then {self.body(s.body)} else {self.body(s.orelse)}"
+        raise Untranslatable(f"statement {type(s).__name__} in the loop body")
+
+    def summand(self, src, pyname, coqname, scalars):
+        """scalars: [(python parameter, 'T' | 'Z' | 'D')] in the order of the Coq binders."""
+        tree = ast.parse(textwrap.dedent(src))
+        fns = [n for n in tree.body if isinstance(n, ast.FunctionDef) and n.name == pyname]
+        if not fns:
+            raise Untranslatable(f"function {pyname} not found")
+        fn = fns[-1]                       # a later definition shadows an earlier one
+        outer = [n for n in fn.body if isinstance(n, ast.For)]
+        if len(outer) != 1 or ast.unparse(outer[0].target) != "point" or ast.unparse(outer[0].iter) not in (
+                "numba.prange(numpoints)", "range(numpoints)"):
+            raise Untranslatable("outer loop is not `for point in numba.prange(numpoints)`")
+        pre = [n for n in fn.body if not isinstance(n, (ast.For, ast.Expr))]
+        if sorted(ast.unparse(n).replace("(", "").replace(")", "") for n in pre) != sorted(
+                ["numtimetraces, numsamples = weighted_timetraces.shape", "numpoints, _ = lookup_times_tx.shape"]):
+            raise Untranslatable("preamble: " + "; ".join(ast.unparse(n) for n in pre))
+        ob = outer[0].body
+        if len(ob) != 3 or ast.unparse(ob[0]) != "res_tmp = 0.0" or not isinstance(ob[1], ast.For) \
+                or ast.unparse(ob[1].target) != "scan" or ast.unparse(ob[1].iter) != "range(numtimetraces)" \
+                or ast.unparse(ob[2]) != "result[point] = res_tmp / numtimetraces":
+            raise Untranslatable("loop skeleton differs from `res_tmp = 0.0; for scan ...: ...; result[point] = res_tmp / numtimetraces`")
+        for p_, k in scalars:
+            self.types[p_] = k
+        self.types["numsamples"] = "Z"
+        binders = "(v_numsamples : Z) " + " ".join(f"(v_{p_} : {k})" for p_, k in scalars)
+        body = self.body(ob[1].body)
+        return (f"Definition {coqname} {{T D : Type}} (N : Num T) (V : Data T D) {binders} (r : prow T D) (s : scan D) : D :=\n"
+                f"  {body}.")
